@@ -103,7 +103,7 @@ def draw_cfg(rng: random.Random, **force: Any) -> Cfg:
     c.memcpy_rate = rng.choice([0.0, 0.2, 0.4])
     c.noise = rng.random() < 0.8
     c.pre_post = rng.random() < 0.7
-    c.filler = rng.choice([130, 260]) if rng.random() < 0.08 else 0
+    c.filler = rng.choice([130, 260, -90, -90]) if rng.random() < 0.1 else 0   # negative: that many ops with rank-specific unique names
     c.corr_start = rng.choice([None, None, None, 1, 100, -1])
     c.tid_base = rng.choice([100] * 12 + [3, 2, 1, 50000])
     c.share_streams = rng.choice([0.0, 0.0, 0.5])
@@ -121,6 +121,7 @@ class RankSim:
         self.corr = rng.choice([-1, 1, 5, 100, 278204204])    # -1: the first correlation id of the rank may be 0
         if cfg.corr_start is not None:
             self.corr = cfg.corr_start
+        self.zero_pending = cfg.corr_start == -1     # the first launch of the rank carries correlation id 0
         self.host_pid = 1000 + rank
         self.dev_pid = rank
         self.stream_ids = rng.sample([7, 13, 20, 24, 28, 32], cfg.nstreams + (1 if cfg.two_threads else 0))
@@ -177,6 +178,8 @@ class RankSim:
         rng = self.rng
         d = self.dur()
         c = self.next_corr()
+        if self.zero_pending:
+            c, self.zero_pending = 0, False
         stream = rng.choice(streams)
         r = rng.random()
         if r < self.cfg.memcpy_rate * 0.6:
@@ -455,8 +458,13 @@ def simulate_rank(rng: random.Random, cfg: Cfg, rank: int) -> List[Dict[str, Any
         # many small operators after everything else in time but early in the file: the ids of the interesting
         # events exceed the range of the narrow integer types the parser may pick for small values
         hi = max(e["ts"] + e["dur"] for e in ev) + 2 * cfg.grid
-        fill = [{"ph": "X", "cat": "cpu_op", "name": rng.choice(["aten::fill_", "aten::zero_", "aten::empty"]), "pid": sim.host_pid,
-                 "tid": cfg.tid_base + rank, "ts": hi + 2 * k * cfg.grid, "dur": cfg.grid} for k in range(cfg.filler)]
+        if cfg.filler > 0:
+            fill = [{"ph": "X", "cat": "cpu_op", "name": rng.choice(["aten::fill_", "aten::zero_", "aten::empty"]), "pid": sim.host_pid,
+                     "tid": cfg.tid_base + rank, "ts": hi + 2 * k * cfg.grid, "dur": cfg.grid} for k in range(cfg.filler)]
+        else:
+            # a large rank-specific vocabulary: each rank's own symbol table stays below 128 entries, all ranks together exceed it
+            fill = [{"ph": "X", "cat": "cpu_op", "name": f"aten::op_r{rank}_{k}", "pid": sim.host_pid,
+                     "tid": cfg.tid_base + rank, "ts": hi + 2 * k * cfg.grid, "dur": cfg.grid} for k in range(-cfg.filler)]
         ev[1:1] = fill
     if cfg.noise:
         lo = min(e["ts"] for e in ev)
